@@ -763,8 +763,12 @@ func writeEvidence(ctx *RunCtx, nviol int) error {
 	if err != nil {
 		return err
 	}
-	os.MkdirAll(filepath.Join(VerifRoot, "evidence"), 0o755)
-	return os.WriteFile(filepath.Join(VerifRoot, "evidence", ch.ID+".json"), b, 0o644)
+	dir := filepath.Join(VerifRoot, "evidence")
+	if d := os.Getenv("VERIF_EVIDENCE_DIR"); d != "" {
+		dir = d // runs against scratch clones (seeded / benign changes) keep the registered evidence intact
+	}
+	os.MkdirAll(dir, 0o755)
+	return os.WriteFile(filepath.Join(dir, ch.ID+".json"), b, 0o644)
 }
 
 func sortedKeys(m map[string]bool) []string {
